@@ -33,6 +33,118 @@ def default_judge(case, impl, drv):
     return impl == drv["spec"], impl == drv["mirror"]
 
 
+def shrink_candidates(case):
+    """structurally smaller variants of a case (generic over the case families)"""
+    import copy
+    out = []
+
+    def variant(**kw):
+        c = copy.deepcopy(case)
+        c.update(kw)
+        out.append(c)
+
+    for key in ("ops", "queries", "pairs", "ca"):
+        v = case.get(key)
+        if isinstance(v, list) and len(v) > 1:
+            for i in range(len(v)):
+                variant(**{key: v[:i] + v[i + 1:]})
+            if key != "ops":
+                for i in range(len(v)):
+                    variant(**{key: [v[i]]})
+    for key in ("filter_out", "stop", "options", "names", "attrs", "targets"):
+        v = case.get(key)
+        if isinstance(v, list) and v:
+            for i in range(len(v)):
+                variant(**{key: v[:i] + v[i + 1:]})
+    for key, simple in (("maxlevel", None), ("iterations", 1), ("partial", 0), ("custom", False), ("indent", None),
+                        ("graph", None), ("gname", None), ("tofile", False), ("attriter", "none"), ("childiter", "list")):
+        if key in case and case[key] != simple:
+            variant(**{key: simple})
+    t = case.get("tree")
+    if isinstance(t, list) and len(t) == 2 and isinstance(t[1], list):
+        refs = set()
+        for k in ("start",):
+            if isinstance(case.get(k), int):
+                refs.add(case[k])
+
+        def prune(node):
+            # every way of deleting one leaf
+            res = []
+            for i, ch in enumerate(node[1]):
+                if not ch[1] and ch[0] not in refs:
+                    res.append([node[0], node[1][:i] + node[1][i + 1:]])
+                for sub in prune(ch):
+                    res.append([node[0], node[1][:i] + [sub] + node[1][i + 1:]])
+            return res
+
+        if isinstance(t[0], int):
+            for nt in prune(t):
+                labs = set()
+
+                def collect(n):
+                    labs.add(n[0])
+                    for c in n[1]:
+                        collect(c)
+                collect(nt)
+                c = copy.deepcopy(case)
+                c["tree"] = nt
+                for k in ("filter_out", "stop"):
+                    if isinstance(c.get(k), list):
+                        c[k] = [x for x in c[k] if x in labs]
+                if isinstance(c.get("names"), list):
+                    c["names"] = [e for e in c["names"] if e[0] in labs]
+                if isinstance(c.get("pairs"), list):
+                    c["pairs"] = [p for p in c["pairs"] if all(x in labs for x in p)] or c["pairs"][:0]
+                    if not c["pairs"]:
+                        continue
+                if isinstance(c.get("queries"), list):
+                    qs = [q for q in c["queries"] if not isinstance(q, dict) or q.get("start", next(iter(labs))) in labs]
+                    if not qs:
+                        continue
+                    c["queries"] = qs
+                out.append(c)
+    return out
+
+
+def shrink(rec, judge, classify, known, repo, budget_s=25.0):
+    """greedy minimisation of a property-failing case: keep a smaller variant while it still fails the property
+    (same assertion setting, not a known finding, and the runners do not choke on it)"""
+    t_end = time.time() + budget_s
+    best = rec
+    rounds = 0
+    while time.time() < t_end and rounds < 40:
+        rounds += 1
+        cands = shrink_candidates(best["case"])
+        cands = [c for c in cands if len(case_key(c)) < len(case_key(best["case"]))]
+        if not cands:
+            break
+        cands = cands[:200]
+        try:
+            drv = core.run_driver(cands, tolerate=True)
+            impl = core.run_impl(cands, repo, assertions=best["assertions"])
+        except Exception:
+            break
+        found = None
+        for c, r, d in zip(cands, impl, drv):
+            if "error" in d or (isinstance(r, dict) and (r.get("where") == "runner" or "worker_crash" in r)):
+                continue
+            try:
+                p_ok, _c_ok = judge(c, r, d)
+            except Exception:
+                continue
+            if p_ok:
+                continue
+            kid = classify(c, r, d)
+            if kid is not None and any(k["id"] == kid and k["status"] == "known" for k in known):
+                continue
+            if found is None or len(case_key(c)) < len(case_key(found["case"])):
+                found = {"case": c, "impl": r, "mirror": d["mirror"], "spec": d["spec"], "assertions": best["assertions"]}
+        if found is None:
+            break
+        best = found
+    return best, rounds
+
+
 def case_key(case):
     return json.dumps(case, sort_keys=True, separators=(",", ":"))
 
@@ -186,6 +298,10 @@ def main():
     if prop_fail:
         prop_fail.sort(key=lambda r: len(case_key(r["case"])))
         best = prop_fail[0]
+        original_len = len(case_key(best["case"]))
+        if not args.replay:
+            best, rounds = shrink(best, judge, classify, known, args.repo)
+            notes.append("replay minimised in %d rounds: %d -> %d characters" % (rounds, original_len, len(case_key(best["case"]))))
         replay_path = os.path.join("replays", "%s-violation.json" % pid)
         core.write_json(os.path.join(core.VERIF, replay_path), {
             "property": pid, "kind": "failing-input", "what": "implementation result differs from what the "
